@@ -381,7 +381,14 @@ func (r *resolver) applyDeviation(y *Module, d *Deviation) error {
 			notifs := target.Parent().(HasNotifications).Notifications()
 			delete(notifs, target.Ident())
 		default:
-			hasDDefs := target.Parent().(HasDataDefinitions)
+			if choice, isCase := target.Parent().(*Choice); isCase {
+				delete(choice.cases, target.Ident())
+				return nil
+			}
+			hasDDefs, valid := target.Parent().(HasDataDefinitions)
+			if !valid {
+				return fmt.Errorf("cannot remove %s, a %T in a %T", d.Ident(), target, target.Parent())
+			}
 			existing := hasDDefs.popDataDefinitions()
 			for _, candidate := range existing {
 				if candidate != target {
@@ -397,7 +404,53 @@ func (r *resolver) applyDeviation(y *Module, d *Deviation) error {
 	// violations are errors, not silent ignores.
 	hasDets, _ := target.(HasDetails)
 	hasType, _ := target.(Leafable)
+	if _, isAny := target.(*Any); isAny {
+		// anydata and anyxml have no type statement, no units and no default
+		hasType = nil
+	}
 	hasListDets, _ := target.(HasListDetails)
+	_, hasMusts := target.(HasMusts)
+	_, isList := target.(*List)
+	_, manyDefaults := target.(HasDefaultValues)
+	// a property can only be deviated on a target that can have it
+	applicable := func(details, listDetails bool, musts int, units bool, defaults int, uniques int) error {
+		var prop string
+		switch {
+		case details && hasDets == nil:
+			prop = "config / mandatory"
+		case listDetails && hasListDets == nil:
+			prop = "min-elements / max-elements"
+		case musts > 0 && !hasMusts:
+			prop = "must"
+		case (units || defaults > 0) && hasType == nil:
+			prop = "units / default"
+		case defaults > 1 && !manyDefaults:
+			prop = "more than one default"
+		case uniques > 0 && !isList:
+			prop = "unique"
+		}
+		if prop != "" {
+			return fmt.Errorf("%s cannot be deviated on %s, %T has no such property", prop, d.Ident(), target)
+		}
+		return nil
+	}
+	if x := d.Add; x != nil {
+		if err := applicable(x.configPtr != nil || x.mandatoryPtr != nil, x.maxElementsPtr != nil || x.minElementsPtr != nil,
+			len(x.musts), x.units != "", len(x.defaultVals), len(x.unique)); err != nil {
+			return err
+		}
+	}
+	if x := d.Replace; x != nil {
+		if err := applicable(x.configPtr != nil || x.mandatoryPtr != nil, x.maxElementsPtr != nil || x.minElementsPtr != nil,
+			0, x.units != "", len(x.defaultVals), 0); err != nil {
+			return err
+		}
+	}
+	if x := d.Delete; x != nil {
+		if err := applicable(false, false, len(x.musts), x.units != "", len(x.defaultVals), len(x.unique)); err != nil {
+			return err
+		}
+	}
 	if d.Add != nil {
 		if d.Add.configPtr != nil {
 			if hasDets.IsConfigSet() {
@@ -978,8 +1031,12 @@ func (r *resolver) expandAugment(y *Augment, parent Meta) error {
 	}
 
 	for _, orig := range y.Actions() {
+		hasActions, canHaveActions := target.(HasActions)
+		if !canHaveActions {
+			return fmt.Errorf("%s - cannot add action %s, %T does not allow actions", SchemaPath(y), orig.Ident(), target)
+		}
 		d := orig.clone(target).(Definition)
-		if err := target.(HasActions).addAction(d.(*Rpc)); err != nil {
+		if err := hasActions.addAction(d.(*Rpc)); err != nil {
 			return err
 		}
 		if _, err := r.enter(d); err != nil {
@@ -988,8 +1045,12 @@ func (r *resolver) expandAugment(y *Augment, parent Meta) error {
 	}
 
 	for _, orig := range y.Notifications() {
+		hasNotifs, canHaveNotifs := target.(HasNotifications)
+		if !canHaveNotifs {
+			return fmt.Errorf("%s - cannot add notification %s, %T does not allow notifications", SchemaPath(y), orig.Ident(), target)
+		}
 		d := orig.clone(target).(Definition)
-		if err := target.(HasNotifications).addNotification(d.(*Notification)); err != nil {
+		if err := hasNotifs.addNotification(d.(*Notification)); err != nil {
 			return err
 		}
 		if _, err := r.enter(d); err != nil {
